@@ -84,7 +84,6 @@ inline std::string pct_decode(std::string const &s) {   // what a browser-side r
 struct Cookie { std::string value; long long expiry = 0; bool session_only = false; };
 struct Jar : cppcms::session_interface_cookie_adapter {
     std::map<std::string, Cookie> c;
-    std::set<std::string> lost;       // names that disappeared without the server asking for it (expiry, restart, tampering)
     std::string prefix = "cppcms_session";
     // log of the current request
     int calls = 0, sess_sets = 0, sess_dels = 0;
@@ -101,7 +100,6 @@ struct Jar : cppcms::session_interface_cookie_adapter {
         if (k.max_age_defined()) { del = k.max_age() == 0; ck.expiry = now() + (long long)k.max_age(); }       // Max-Age wins over Expires
         else if (k.expires_defined()) { del = (long long)k.expires() <= now(); ck.expiry = (long long)k.expires(); }
         else ck.session_only = true;
-        lost.erase(name);
         if (del) { c.erase(name); if (name == prefix) sess_dels++; }
         else { c[name] = ck; set_now.insert(name); if (name == prefix) sess_sets++; }
     }
@@ -110,11 +108,11 @@ struct Jar : cppcms::session_interface_cookie_adapter {
 
     std::string session() const { auto p = c.find(prefix); return p == c.end() ? std::string() : p->second.value; }
     void tick() {          // the browser evicts cookies whose expiry date is in the past
-        for (auto it = c.begin(); it != c.end();) if (!it->second.session_only && it->second.expiry < now()) { lost.insert(it->first); it = c.erase(it); } else ++it;
+        for (auto it = c.begin(); it != c.end();) if (!it->second.session_only && it->second.expiry < now()) it = c.erase(it); else ++it;
     }
-    void restart() { for (auto it = c.begin(); it != c.end();) if (it->second.session_only) { lost.insert(it->first); it = c.erase(it); } else ++it; }
+    void restart() { for (auto it = c.begin(); it != c.end();) if (it->second.session_only) it = c.erase(it); else ++it; }
     void plant(std::string const &value) {     // somebody edits the cookie store: new session cookie, exposed cookies gone
-        for (auto it = c.begin(); it != c.end();) if (it->first.compare(0, prefix.size() + 1, prefix + "_") == 0 || it->first == prefix) { lost.insert(it->first); it = c.erase(it); } else ++it;
+        for (auto it = c.begin(); it != c.end();) if (it->first.compare(0, prefix.size() + 1, prefix + "_") == 0 || it->first == prefix) it = c.erase(it); else ++it;
         if (!value.empty()) { Cookie ck; ck.value = value; ck.session_only = true; c[prefix] = ck; }
     }
     std::string dump() const {
